@@ -56,7 +56,7 @@ ASSUMPTIONS = [
     "padding length is validated and then reproduced by the reference",
 ]
 NONTRIVIAL = ["cell"]
-DEADLINE = {"quick": 60, "thorough": 600}
+DEADLINE = {"quick": 180, "thorough": 600}
 USE_DRBG = True
 
 TABLE = iana.table(CipherSuite.ietfNames)
